@@ -1,0 +1,14 @@
+//go:build verif
+// +build verif
+
+package graphql
+
+// VerifHook, when set, is called at the linearisation points of the websocket
+// connection's subscription bookkeeping (build tag verif only). It may block.
+var VerifHook func(point string, args ...interface{})
+
+func vh(point string, args ...interface{}) {
+	if h := VerifHook; h != nil {
+		h(point, args...)
+	}
+}
